@@ -505,10 +505,21 @@ def schema_order_cases(tier):
         "Wrapper": {"type": "object", "properties": {"e": {"$ref": "#/components/schemas/BaseApiError"}}},
     }
     out = []
-    for name, b in (("pets", base), ("errors", base2)):
+    for name, b in (("pets", base), ("errors", base2), ("unions", _UNION_FAMILY)):
         for perm in itertools.permutations(list(b)):
             out.append({"family": name, "order": list(perm)})
     return out
+
+
+# forward references below the top level of a component (array member of a union, nested union, additionalProperties)
+_UNION_FAMILY = {
+    "Batch": {"oneOf": [{"type": "array", "items": {"$ref": "#/components/schemas/Item"}}, {"type": "string"}]},
+    "Item": {"type": "object", "properties": {"n": {"type": "integer"}}},
+    "Holder": {"type": "object", "properties": {"b": {"$ref": "#/components/schemas/Batch"}},
+               "additionalProperties": {"anyOf": [{"$ref": "#/components/schemas/Item"}, {"type": "integer"}]}},
+    "Alt": {"anyOf": [{"type": "array", "items": {"oneOf": [{"$ref": "#/components/schemas/Item"}, {"type": "integer"}]}},
+                      {"$ref": "#/components/schemas/Item"}]},
+}
 
 
 _FAMILIES = None
@@ -529,6 +540,7 @@ def schema_order(case):
             "ApiError": {"allOf": [{"$ref": "#/components/schemas/Error"}, {"type": "object", "properties": {"code": {"type": "integer"}}}]},
             "BaseApiError": {"allOf": [{"$ref": "#/components/schemas/ApiError"}]},
             "Wrapper": {"type": "object", "properties": {"e": {"$ref": "#/components/schemas/BaseApiError"}}}},
+        "unions": _UNION_FAMILY,
     }[case["family"]]
     doc = _base(schemas={k: fam[k] for k in case["order"]})
     try:
@@ -540,6 +552,9 @@ def schema_order(case):
     models = list(data.models)
     got = sorted({m.class_info.name for m in models} | {e.class_info.name for e in data.enums})
     want = sorted(k for k in fam if k != "BaseApiError") if case["family"] == "errors" else sorted(fam)
+    if case["family"] == "unions":
+        want = ["Holder", "Item"]          # the two unions are not classes
+        refs = sorted(str(k).split("/")[-1] for k in data.schemas.classes_by_reference) if hasattr(data, "schemas") else None
     # BaseApiError is a single-reference wrapper: no class of its own
     if data.errors:
         return f"order {case['order']}: diagnostics for a valid document: {[ (e.header, (e.detail or '')[:80]) for e in data.errors][:2]}"
@@ -917,7 +932,8 @@ def _tree(doc=None, text=None, suffix=".json", cfg=None):
 
 def equivalent_docs_cases(tier):
     return ["nullable-30-vs-typelist", "nullable-ref-allof", "wrapper-allof", "wrapper-oneof", "wrapper-anyof", "json-vs-yaml",
-            "nullable-model-oneof", "null-enum-param-shared", "wrapper-with-default"]
+            "nullable-model-oneof", "null-enum-param-shared", "wrapper-with-default", "same-ref-twice-in-union",
+            "union-of-wrappers", "null-enum-component-shared"]
 
 
 def equivalent_docs(case):
@@ -957,6 +973,22 @@ def equivalent_docs(case):
                  "    En: {type: string, enum: [a, b]}\n    M:\n      type: object\n      properties:\n        p: {type: string, default: 'x: y'}\n"
                  "        when: {type: string, format: date, default: '2020-01-02'}\n")
         d2, s2 = None, ".yaml"
+    elif case == "same-ref-twice-in-union":
+        # the same schema reached twice in one union (prefixItems + items), once bare and once through a one-element wrapper
+        d1 = doc({"pts": {"type": "array", "prefixItems": [ref], "items": {"allOf": [ref]}}})
+        d2 = doc({"pts": {"type": "array", "prefixItems": [ref], "items": ref}})
+    elif case == "union-of-wrappers":
+        d1 = doc({"u": {"oneOf": [{"allOf": [ref]}, {"type": "string"}, {"anyOf": [{"$ref": "#/components/schemas/En"}]}]}})
+        d2 = doc({"u": {"oneOf": [ref, {"type": "string"}, {"$ref": "#/components/schemas/En"}]}})
+    elif case == "null-enum-component-shared":
+        # an enumeration with a null member in a component parameter used by two operations vs written out on each
+        p = {"name": "state", "in": "query", "schema": {"type": ["string", "null"], "enum": ["on", "off", None]}}
+        ok = {"200": {"description": ""}}
+        d1 = doc({}, paths={"/x": {"get": {"operationId": "g", "parameters": [{"$ref": "#/components/parameters/St"}], "responses": ok}},
+                            "/y": {"get": {"operationId": "h", "parameters": [{"$ref": "#/components/parameters/St"}], "responses": ok}}})
+        d1["components"]["parameters"] = {"St": p}
+        d2 = doc({}, paths={"/x": {"get": {"operationId": "g", "parameters": [copy.deepcopy(p)], "responses": ok}},
+                            "/y": {"get": {"operationId": "h", "parameters": [copy.deepcopy(p)], "responses": ok}}})
     elif case == "null-enum-param-shared":
         p = {"name": "mode", "in": "query", "schema": {"type": "string", "enum": ["a", "b", None], "nullable": True}}
         ok = {"200": {"description": ""}}
@@ -1109,3 +1141,257 @@ def enum_default(case):
         return None
     finally:
         pkg.cleanup()
+
+
+# ---- response media types (responses.response_from_data: decoder and schema come from the SAME media type) ------------------
+
+RESP_MEDIA = [("application/json", "model"), ("application/json", None), ("application/xml", "string"), ("text/plain", "string"),
+              ("text/plain", None), ("application/octet-stream", "binary"), ("application/vnd.x+json", "other"),
+              ("application/pdf", None)]
+_RESP_SUPPORTED = {"application/json": "response.json()", "application/vnd.x+json": "response.json()",
+                   "text/plain": "response.text", "application/octet-stream": "response.content"}
+
+
+def response_media_cases(tier):
+    out = []
+    for k in (1, 2, 3):
+        for combo in itertools.permutations(RESP_MEDIA, k):
+            if len({c[0] for c in combo}) == k:
+                out.append([list(c) for c in combo])
+    return out
+
+
+def response_media(case):
+    schemas = {"M": {"type": "object", "properties": {"a": {"type": "string"}}},
+               "Other": {"type": "object", "properties": {"b": {"type": "integer"}}}}
+    kinds = {"model": {"$ref": "#/components/schemas/M"}, "other": {"$ref": "#/components/schemas/Other"},
+             "string": {"type": "string"}, "binary": {"type": "string", "format": "binary"}}
+    want_type = {"model": "M", "other": "Other", "string": "str", "binary": "File", None: "Any"}
+    content = {ct: ({"schema": kinds[k]} if k else {}) for ct, k in case}
+    doc = _base({"/x": {"get": {"operationId": "op", "responses": {"200": {"description": "", "content": content}}}}}, schemas)
+    try:
+        data = _parse(doc)
+    except _Timeout:
+        return "parser did not terminate"
+    except BaseException as e:  # noqa
+        return f"parser raised {type(e).__name__}: {str(e)[:100]}"
+    eps = [e for c in data.endpoint_collections_by_tag.values() for e in c.endpoints]
+    if not eps:
+        return "the operation was dropped"
+    ep = eps[0]
+    first = next(((ct, k) for ct, k in case if ct in _RESP_SUPPORTED), None)
+    if first is None:
+        if ep.responses:
+            return f"no media type of {[c[0] for c in case]} can be decoded, yet the response is handled"
+        return None if ep.errors else "undecodable response dropped without a warning"
+    if len(ep.responses) != 1:
+        return f"response with decodable media type {first[0]} is not handled ({len(ep.responses)} responses)"
+    r = ep.responses[0]
+    src = r.source["attribute"] if isinstance(r.source, dict) else getattr(r.source, "attribute", None)
+    want_src = _RESP_SUPPORTED[first[0]] if first[1] else "None"       # no schema: nothing to parse
+    if src != want_src:
+        return f"first decodable media type is {first[0]} but the body is read as {src}"
+    got = r.prop.get_type_string()
+    # text/plain with a string schema and binary bodies are typed by their schema; no schema: Any
+    if got != want_type[first[1]]:
+        return f"decoded as {first[0]} (schema kind {first[1]}) but typed {got}: the schema of another media type was used"
+    return None
+
+
+# ---- one response component referenced under several status codes ----------------------------------------------------------
+
+def response_refs_cases(tier):
+    codes = ["400", "404", "409", "default"]
+    out = []
+    for k in (1, 2, 3):
+        for combo in itertools.combinations(codes, k):
+            for inline_first in (False, True):
+                out.append({"shared": list(combo), "inline_first": inline_first})
+    out.append({"shared": ["400", "404"], "inline_first": True, "two_components": True})
+    return out
+
+
+def response_refs(case):
+    problem = {"description": "p", "content": {"application/json": {"schema": {"type": "object", "properties": {"m": {"type": "string"}}}}}}
+    other = {"description": "o", "content": {"text/plain": {"schema": {"type": "string"}}}}
+    responses = {}
+    if case["inline_first"]:
+        responses["200"] = {"description": "ok"}
+    for i, c in enumerate(case["shared"]):
+        name = "Other" if case.get("two_components") and i == 1 else "Problem"
+        responses[c] = {"$ref": f"#/components/responses/{name}"}
+    if not case["inline_first"]:
+        responses["200"] = {"description": "ok"}
+    doc = _base({"/x": {"get": {"operationId": "op", "responses": responses}}}, None, responses={"Problem": problem, "Other": other})
+    try:
+        data = _parse(doc)
+    except _Timeout:
+        return "parser did not terminate"
+    except BaseException as e:  # noqa
+        return f"parser raised {type(e).__name__}: {str(e)[:100]}"
+    eps = [e for c in data.endpoint_collections_by_tag.values() for e in c.endpoints]
+    if not eps:
+        return "the operation was dropped"
+    ep = eps[0]
+    got = sorted(str(getattr(r.status_code, "value", r.status_code)) for r in ep.responses)
+    want = sorted(c for c in responses if c != "default")
+    named = " ".join((e.detail or "") + (e.header or "") for e in ep.errors)
+    missing = [c for c in want if c not in got and c not in named]
+    if missing:
+        return f"documented statuses {missing} are neither handled ({got}) nor named in a warning"
+    if len(got) != len(set(got)):
+        return f"a status is handled twice: {got}"
+    return None
+
+
+# ---- documents the loader / validator must reject with a diagnostic (never an exception) -----------------------------------
+
+def rejection_pool_cases(tier):
+    ok = {"200": {"description": ""}}
+    info = {"title": "t", "version": "1"}
+    docs = [
+        {"openapi": "3.0.3", "info": info, "paths": {}, "servers": [{"description": "no url"}]},
+        {"openapi": "3.0.3", "info": info, "paths": {"/x": {"get": {"parameters": [{"name": "a", "in": "body"}], "responses": ok}}}},
+        {"openapi": "3.0.3", "info": info, "paths": {"/x": {"get": {"parameters": [5], "responses": ok}}}},
+        {"openapi": "3.0.3", "info": info, "paths": {"/x": {"get": {"tags": [1, {"a": 2}], "responses": ok}}}},
+        {"openapi": "3.0.3", "info": info, "paths": {"/x": {"get": {"responses": {"200": 5}}}}},
+        {"openapi": "3.0.3", "info": info, "paths": {"/x": {"get": {"responses": ok, "security": [{"k": "notalist"}]}}}},
+        {"openapi": "3.0.3", "info": info, "paths": {"/x": {"get": {"responses": ok, "security": [5]}}}},
+        {"openapi": "3.0.3", "info": info, "paths": [1, 2]},
+        {"openapi": "3.0.3", "info": info, "paths": {"/x": [1]}},
+        {"openapi": "3.0.3", "info": info, "paths": {}, "components": {"schemas": {"A": {"type": 5}}}},
+        {"openapi": "3.0.3", "info": info, "paths": {}, "components": {"schemas": {"A": {"allOf": [{"type": "object"}, 7]}}}},
+        {"openapi": "3.0.3", "info": info, "paths": {}, "components": {"schemas": {"A": {"type": "object", "required": [1, [2]]}}}},
+        {"openapi": "3.0.3", "info": info, "paths": {}, "components": {"schemas": {"A": {"enum": "notalist"}}}},
+        {"openapi": "3.0.3", "info": info, "paths": {}, "components": {"parameters": {"P": {"name": "p", "in": "nowhere"}}}},
+        {"openapi": "3.0.3", "info": info, "paths": {}, "tags": [{"description": "no name"}]},
+        {"openapi": "3.0.3", "info": info, "paths": {}, "tags": ["a", "b"]},
+        {"openapi": "3.0.3", "info": {"title": ["t"], "version": 1}, "paths": {}},
+        {"openapi": "3.0.3", "paths": {}},
+        {"openapi": "2.0", "info": info, "paths": {}},
+        {"openapi": "4.0.0", "info": info, "paths": {}},
+        {"openapi": 3, "info": info, "paths": {}},
+        {"swagger": "2.0", "info": info, "paths": {}},
+        {"info": info, "paths": {}},
+        {"openapi": "3.1.0", "info": info, "paths": {"/x": {"get": {"requestBody": {"content": {"application/json": {"schema": [1]}}}, "responses": ok}}}},
+        {"openapi": "3.1.0", "info": info, "paths": {"/x": {"get": {"requestBody": {"content": [{"a": 1}]}, "responses": ok}}}},
+        {"openapi": "3.1.0", "info": info, "paths": {"/x": {"parameters": [{"name": "a", "in": "query", "schema": {"type": ["string", 5]}}], "get": {"responses": ok}}}},
+        {"openapi": "3.1.0", "info": info, "paths": {}, "components": {"schemas": {"A": {"prefixItems": [1, 2]}}}},
+        {"openapi": "3.1.0", "info": info, "paths": {}, "components": {"schemas": {"A": {"oneOf": [{"type": "string"}, [3]]}}}},
+        [], 5, None, "text", {"openapi": "3.0.3"}, {},
+    ]
+    return [{"doc": d} for d in docs]
+
+
+def rejection_pool(case):
+    from openapi_python_client.parser.errors import GeneratorError
+    from openapi_python_client.parser.openapi import GeneratorData
+    try:
+        data = _parse(case["doc"])
+    except _Timeout:
+        return "the validator did not terminate"
+    except BaseException as e:  # noqa
+        return f"an invalid document raised {type(e).__name__}: {str(e)[:120]} instead of yielding a diagnostic"
+    if isinstance(data, GeneratorError):
+        return None
+    if isinstance(data, GeneratorData):
+        return None         # accepted after all (pydantic coerced it): fine, nothing escaped
+    return f"neither a GeneratorError nor GeneratorData: {type(data).__name__}"
+
+
+# ---- a path-item parameter that the operation overrides is ignored, whatever it looks like ---------------------------------
+
+def param_override_cases(tier):
+    out = []
+    for loc in ("query", "header", "cookie"):
+        for bad in ("missing-ref", "missing-schema", "bad-default"):
+            for overridden in (True, False):
+                out.append({"loc": loc, "bad": bad, "overridden": overridden})
+    return out
+
+
+def param_override(case):
+    loc = case["loc"]
+    bad = {"missing-ref": {"name": "mode", "in": loc, "schema": {"$ref": "#/components/schemas/DoesNotExist"}},
+           "missing-schema": {"name": "mode", "in": loc},
+           "bad-default": {"name": "mode", "in": loc, "schema": {"type": "integer", "default": "x"}}}[case["bad"]]
+    op = {"operationId": "op", "responses": {"200": {"description": ""}}}
+    if case["overridden"]:
+        op["parameters"] = [{"name": "mode", "in": loc, "schema": {"type": "string"}}]
+    doc = _base({"/x": {"parameters": [bad], "get": op}})
+    try:
+        data = _parse(doc)
+    except _Timeout:
+        return "parser did not terminate"
+    except BaseException as e:  # noqa
+        return f"parser raised {type(e).__name__}: {str(e)[:100]}"
+    eps = [e for c in data.endpoint_collections_by_tag.values() for e in c.endpoints]
+    errs = _all_errors(data)
+    if case["overridden"]:
+        if not eps:
+            return f"the operation overrides the bad path-item parameter ({case['bad']}, {loc}) but was dropped: {[(e.detail or '')[:60] for e in errs][:1]}"
+        lists = {"query": eps[0].query_parameters, "header": eps[0].header_parameters, "cookie": eps[0].cookie_parameters}
+        names = [(p.name, p.get_type_string()) for p in lists[loc]]
+        if names != [("mode", "Union[Unset, str]")]:
+            return f"expected the operation's own parameter mode: str, got {names}"
+        return None
+    if eps and case["bad"] != "missing-schema":
+        return "a path-item parameter that cannot be parsed was ignored silently" if not errs else None
+    if not eps and not errs:
+        return "operation dropped without a diagnostic"
+    return None
+
+
+# ---- reordering paths changes nothing (C12 b): operations that share components ------------------------------------------------
+
+def path_order_cases(tier):
+    return [{"family": f, "order": list(p)} for f in ("shared-body-model", "shared-enum-param", "shared-response")
+            for p in itertools.permutations([0, 1, 2])]
+
+
+_PATH_SIGS = {}
+
+
+def _path_family(name):
+    ok = {"200": {"description": ""}}
+    note = {"$ref": "#/components/schemas/Note"}
+    schemas = {"Note": {"type": "object", "properties": {"t": {"type": "string"}}}, "Mode": {"type": "string", "enum": ["a", "b"]}}
+    if name == "shared-body-model":
+        paths = [("/form", {"post": {"operationId": "a_form", "requestBody": {"content": {"multipart/form-data": {"schema": note}}}, "responses": ok}}),
+                 ("/json", {"post": {"operationId": "b_json", "requestBody": {"content": {"application/json": {"schema": note}}}, "responses": ok}}),
+                 ("/url", {"post": {"operationId": "c_url", "requestBody": {"content": {"application/x-www-form-urlencoded": {"schema": note}}}, "responses": ok}})]
+    elif name == "shared-enum-param":
+        p = lambda d: {"name": "mode", "in": "query", "schema": {"type": "string", "enum": ["x", "y"], "title": "Order", **d}}  # noqa
+        paths = [("/a", {"get": {"operationId": "a", "parameters": [p({"default": "x"})], "responses": ok}}),
+                 ("/b", {"get": {"operationId": "b", "parameters": [p({})], "responses": ok}}),
+                 ("/c", {"get": {"operationId": "c", "parameters": [{"name": "m", "in": "query", "schema": {"$ref": "#/components/schemas/Mode"}}], "responses": ok}})]
+    else:
+        r = {"$ref": "#/components/responses/R"}
+        paths = [("/a", {"get": {"operationId": "a", "responses": {"200": r}}}),
+                 ("/b", {"get": {"operationId": "b", "responses": {"200": {"description": ""}, "404": r}}}),
+                 ("/c", {"get": {"operationId": "c", "responses": {"200": {"description": "", "content": {"application/json": {"schema": note}}}}}})]
+    comps = {"responses": {"R": {"description": "r", "content": {"application/json": {"schema": {"type": "array", "prefixItems": [note], "items": note}}}}}}
+    return paths, schemas, comps
+
+
+def path_order(case):
+    paths, schemas, comps = _path_family(case["family"])
+
+    def tree(order):
+        doc = _base({paths[i][0]: paths[i][1] for i in order}, schemas, **comps)
+        doc["openapi"] = "3.1.0"
+        files, errors = _tree(doc)
+        return files, errors
+    if case["family"] not in _PATH_SIGS:
+        _PATH_SIGS[case["family"]] = tree([0, 1, 2])
+    f0, e0 = _PATH_SIGS[case["family"]]
+    f1, e1 = tree(case["order"])
+    if e0 or e1:
+        return None       # the clause is about documents that generate without diagnostics
+    diff = sorted(k for k in set(f0) | set(f1) if f0.get(k) != f1.get(k))
+    if diff:
+        import difflib
+        k = diff[0]
+        d = "\n".join(list(difflib.unified_diff((f0.get(k) or "").splitlines(), (f1.get(k) or "").splitlines(), lineterm="", n=0))[:8])
+        return f"paths in order {case['order']}: generated files {diff[:4]} differ from the declaration order: {d[:400]}"
+    return None
